@@ -234,16 +234,16 @@ K_AUDIO_SLOW = dict(name="K-core::audio-float", package="rustzx-core", features=
                     assumptions=CORE_ASSUME + ["f64 division/multiplication decided bit-precisely by CBMC (slow: minutes)"])
 
 K_VTX = dict(name="K-vtx", package="vtx", harnesses=["play_mono", "play_stereo", "play_empty"], jobs=3, timeout=2400,
-             bounded={"play_mono": "2 frames, samples_per_frame 1..2, three play() calls (lengths <= 3, <= 3, rest), 12-sample buffer",
-                      "play_stereo": "2 frames, samples_per_frame 1..2, three play() calls (lengths <= 3, <= 3, rest), 12-sample buffer",
+             bounded={"play_mono": "2 frames, samples_per_frame 1..2, two play() calls (first length 0..4, then the rest), 10-sample buffer",
+                      "play_stereo": "2 frames, samples_per_frame 1..2, two play() calls (first length 0..4, then the rest), 10-sample buffer",
                       "play_empty": "0 frames"},
              functions={"*": ["Player::new", "Player::play", "Player::update_ay"]},
              assumptions=["recording AymBackend (sample k has value k) stands in for the chip; harness spliced into vtx (overlay)"])
 
 K_LOADERS = dict(name="K-core::loaders", package="rustzx-core", features="full",
-                 harnesses=["sna_header_decode", "szx_one_block"], jobs=2, timeout=3000,
+                 harnesses=["sna_header_48k", "sna_header_128k", "sna_reject", "sna_fault_48k", "szx_one_block"], jobs=5, timeout=3000,
                  bounded={"szx_one_block": "SZX files of one block with <= 40 data bytes, stored (not zlib) pages, 4-byte stand-in pages"},
-                 functions={"sna_header_decode": ["sna::load (header decode, size/model checks, error paths)", "Z80::set_im", "ZXColor::from_bits"],
+                 functions={"sna_header_48k": ["sna::load (header decode)", "Z80::set_im", "ZXColor::from_bits"], "sna_header_128k": ["sna::load (128K path)"], "sna_reject": ["sna::load (size / model checks)"], "sna_fault_48k": ["sna::load (error paths)"],
                             "szx_one_block": ["szx::load", "szx::process_z80r_block", "process_spcr_block", "process_ay_block", "process_keyb_block",
                                               "process_amxm_block", "process_crtr_block", "process_ramp_block (stored pages)"]},
                  assumptions=CORE_ASSUME + CTL_STUBS + [
